@@ -2804,3 +2804,11 @@ VARIANTS.append(dict(prop="C17", id="r14/broken-alignment-peeks-first", kind="M"
                      note="Alignment.__init__ takes the first element of its iterable argument before storing list(argument)"))
 VARIANTS.append(dict(prop="C19", id="r14/broken-category-weights-key-casefolded", kind="M", rule="R-SUP", patch=_os.path.join(_HP, "broken-category-weights-key-casefolded.diff"),
                      note="category_weights counts under the case-folded label: its keys are not the labels the units carry"))
+for _patch, _what in (("probe-init-plain-dict", "Continuum.__init__ keeps the annotators in a plain dict"),
+                      ("probe-init-categories-list", "Continuum.__init__ keeps the categories in a list")):
+    VARIANTS.append(dict(prop="C13", id=f"r14/{_patch}", kind="M", rule="R-SUP", patch=_os.path.join(_HP, f"{_patch}.diff"), note=_what))
+    VARIANTS.append(dict(prop="C10", id=f"r14/{_patch}", kind="M", rule="R-SUP", patch=_os.path.join(_HP, f"{_patch}.diff"), note=_what))
+    VARIANTS.append(dict(prop="C01", id=f"r14/{_patch}", kind="M", rule="", expect_code=2, patch=_os.path.join(_HP, f"{_patch}.diff"), note=_what))
+for _p in _ALL:
+    VARIANTS.append(dict(prop=_p, id="r15/benign-guard-message-enriched", kind="B", rule="", patch=_os.path.join(_HP, "benign-guard-message-enriched.diff"),
+                         note="the zero-length error names the start time and the annotator (reads of the arguments only)"))
